@@ -494,6 +494,10 @@ func corpus12() []call12 {
 			[]cty.Value{cty.SetVal([]cty.Value{cty.TupleVal([]cty.Value{n(1), n(2)})}), cty.TupleVal([]cty.Value{cty.UnknownVal(cty.Number), n(2)})}},
 		{"Contains", []cty.Value{cty.SetVal([]cty.Value{cty.ListVal([]cty.Value{n(1)})}), cty.ListVal([]cty.Value{n(1)})},
 			[]cty.Value{cty.SetVal([]cty.Value{cty.ListVal([]cty.Value{n(1)})}), cty.ListVal([]cty.Value{cty.UnknownVal(cty.Number)})}},
+		// literal text with an escaped percent sign before the first verb: the promised prefix is the text as printed
+		{"Format", []cty.Value{s("100%% of %s"), s("them")}, []cty.Value{s("100%% of %s"), cty.UnknownVal(cty.String)}},
+		{"Format", []cty.Value{s("%%%d%%"), n(5)}, []cty.Value{s("%%%d%%"), cty.UnknownVal(cty.Number)}},
+		{"Format", []cty.Value{s("a%%b%%c %s!"), s("x")}, []cty.Value{s("a%%b%%c %s!"), cty.UnknownVal(cty.String).RefineNotNull()}},
 		// a set whose unknown member is not the one that sorts last (its length and order are not settled)
 		{"Flatten", []cty.Value{cty.SetVal([]cty.Value{s("b"), s("c")})}, []cty.Value{cty.SetVal([]cty.Value{cty.UnknownVal(cty.String), s("c")})}},
 		{"Flatten", []cty.Value{cty.TupleVal([]cty.Value{s("x"), cty.SetVal([]cty.Value{s("a"), s("b"), s("c")})})},
